@@ -42,7 +42,7 @@ impl Scenario for C08 {
         vec![
             "oracle is a self-differential against rosu_map::from_bytes on the same bytes; a defect that changes both sides identically is invisible here (C01/C05/C10 look at those)".into(),
             "fingerprint = hash of the Debug rendering of the decoded value".into(),
-            "storage is fault-free in this mix (faulty storage is C01/C10)".into(),
+            "most inputs are well-formed files; about a fifth carry unusual byte content (doubled BOM, BOM-less UTF-16, storage faults, a line > 64 KiB) because the statement speaks of the byte content alone — whether such content decodes *sensibly* is C01/C10, here only delivery-independence is judged".into(),
         ]
     }
     fn components(&self) -> J {
@@ -105,6 +105,54 @@ impl Scenario for C08 {
         }
         p.set("enc", ENCS.iter().position(|e| *e == enc).unwrap() as i64);
         p.set("dec", rng.below(9) as i64);
+        // The statement is about the byte content alone, so a share of the inputs is *not* a well-formed file in one
+        // of the four encodings: doubled BOM, UTF-16 without BOM, storage-faulted bytes, a line longer than 64 KiB.
+        match rng.below(40) {
+            0 | 1 => {
+                let mut d = enc.bom().to_vec();
+                if d.is_empty() {
+                    d = vec![0xEF, 0xBB, 0xBF];
+                }
+                d.extend_from_slice(&p.data);
+                if !p.data.starts_with(&[0xEF, 0xBB, 0xBF]) && !p.data.starts_with(&[0xFF, 0xFE]) && !p.data.starts_with(&[0xFE, 0xFF]) {
+                    let mut dd = vec![0xEF, 0xBB, 0xBF];
+                    dd.extend_from_slice(&d);
+                    d = dd;
+                }
+                p.data = d;
+                p.faults.push("content-doubled-BOM".into());
+            }
+            2 | 3 => {
+                if p.data.starts_with(&[0xFF, 0xFE]) || p.data.starts_with(&[0xFE, 0xFF]) {
+                    p.data.drain(..2);
+                } else {
+                    p.data = encode_text(&crate::corpus::model_text(&p.data), if rng.chance(1, 2) { Enc::Utf16Le } else { Enc::Utf16Be })[2..].to_vec();
+                }
+                p.faults.push("content-utf16-without-BOM".into());
+            }
+            4..=7 => {
+                for _ in 0..1 + rng.below(3) {
+                    let k = crate::corpus::storage_fault(&mut rng, &mut p.data, &self.corpus, crate::corpus::STORAGE_ALL);
+                    p.faults.push(format!("content-{k}"));
+                }
+            }
+            8 => {
+                // one line longer than 64 KiB somewhere in the file
+                let n = 65_000 + rng.below(70_000);
+                let text = crate::corpus::model_text(&p.data);
+                let mut lines: Vec<String> = text.split('\n').map(str::to_string).collect();
+                let at = rng.below(lines.len() + 1);
+                let filler: String = match rng.below(3) {
+                    0 => format!("Tags:{}", "tag ".repeat(n / 4)),
+                    1 => format!("//{}", "c".repeat(n)),
+                    _ => format!("256,192,1000,2,0,B{},1,100", "|100:100|200:50".repeat(n / 15)),
+                };
+                lines.insert(at, filler);
+                p.data = encode_text(&lines.join("\n"), enc);
+                p.faults.push("content-line-longer-than-64KiB".into());
+            }
+            _ => {}
+        }
         plan_transport(&mut rng, &mut p, false);
         p
     }
@@ -138,7 +186,7 @@ impl Scenario for C08 {
         let t = plan.get("t");
         match t {
             T_SIM => !plan.sched.is_empty() || !plan.eintr.is_empty(),
-            crate::transport::T_BUFREADER | crate::transport::T_CHAIN | crate::transport::T_FROM_PATH => true,
+            crate::transport::T_BUFREADER | crate::transport::T_CHAIN | crate::transport::T_FROM_PATH | crate::transport::T_FROM_PATH_PIPE => true,
             _ => false,
         }
     }
@@ -153,6 +201,7 @@ impl Scenario for C08 {
             "probe.boundary-between-LE-LF-and-its-00",
             "probe.boundary-inside-utf8-sequence",
             "transport.from_path-real-fs",
+            "transport.from_path-pipe-via-procfs",
             "transport.chain-of-slices",
         ]
     }
